@@ -2,7 +2,9 @@ package pimport
 
 import (
 	"context"
+	"fmt"
 
+	"github.com/formancehq/ledger/internal/api/bulking"
 	ledgercontroller "github.com/formancehq/ledger/internal/controller/ledger"
 	"github.com/formancehq/ledger/verifh/lx"
 )
@@ -29,4 +31,90 @@ func RunBulkOps(ctx context.Context, c ledgercontroller.Controller, atomic bool,
 		out.LogIDs = append(out.LogIDs, e.LogID)
 	}
 	return out, nil
+}
+
+// RunBulkStreamed drives the real bulking.Bulker over c the way the STREAMED bulk
+// handlers do (Content-Type …bulk+json-stream / text stream): an unbuffered request
+// channel fed one element at a time, an unbuffered result channel, the result of an
+// element awaited before the next one is sent. Only the first `cut` elements of ops are
+// sent; once the result of the last of them has been received, onCut (if any) is called
+// — the place where the client of a streamed bulk can go away while the server is
+// waiting for the next element: the real handlers then close the request channel, which
+// is what happens next here. Bulker.Run runs on its own goroutine, like in the handler.
+func RunBulkStreamed(ctx context.Context, c ledgercontroller.Controller, atomic bool, ops []lx.Op, cut int, onCut func()) (BulkOutcome, error) {
+	if cut > len(ops) {
+		cut = len(ops)
+	}
+	els := make([]bulking.BulkElement, 0, cut)
+	for _, op := range ops[:cut] {
+		el, ok := toBulkElement(op)
+		if !ok {
+			return BulkOutcome{}, fmt.Errorf("op %s has no bulk form", op)
+		}
+		els = append(els, el)
+	}
+	bulk := make(bulking.Bulk)
+	res := make(chan bulking.BulkElementResult)
+	done := make(chan error, 1)
+	go func() {
+		done <- bulking.NewBulker(c).Run(ctx, bulk, res, bulking.BulkingOptions{Atomic: atomic})
+	}()
+	wr := writeResult{Wanted: cut}
+	finish := func() (BulkOutcome, error) {
+		out := BulkOutcome{RunErr: wr.RunErr, Wanted: wr.Wanted, Results: len(wr.Elems), AllOK: wr.allOK()}
+		for _, e := range wr.Elems {
+			out.ElemErr = append(out.ElemErr, e.Err)
+			out.LogIDs = append(out.LogIDs, e.LogID)
+		}
+		return out, nil
+	}
+	// Run returned: either it never read the stream (options / BeginTX failed: the
+	// result channel stays open and empty) or it closed the result channel before
+	// returning; every result sent before was received synchronously.
+	returned := func(err error) (BulkOutcome, error) {
+		wr.RunErr = err
+		for {
+			select {
+			case r, ok := <-res:
+				if !ok {
+					return finish()
+				}
+				wr.Elems = append(wr.Elems, elemOf(r))
+			default:
+				return finish()
+			}
+		}
+	}
+	for _, el := range els {
+		select {
+		case bulk <- el:
+		case err := <-done:
+			return returned(err)
+		}
+		select {
+		case r, ok := <-res:
+			if !ok {
+				return returned(<-done)
+			}
+			wr.Elems = append(wr.Elems, elemOf(r))
+		case err := <-done:
+			return returned(err)
+		}
+	}
+	if onCut != nil {
+		onCut()
+	}
+	close(bulk)
+	for {
+		select {
+		case r, ok := <-res:
+			if !ok {
+				wr.RunErr = <-done
+				return finish()
+			}
+			wr.Elems = append(wr.Elems, elemOf(r))
+		case err := <-done:
+			return returned(err)
+		}
+	}
 }
